@@ -58,7 +58,7 @@ EXPECTED_PROBES = ['setup_checked', 'r4_checked', 'completed_strict_subset', 'do
                    'torn_file_seen_at_start', 'delete_not_in_memory', 'delete_in_memory', 'delete_keep_row',
                    'delete_stream', 'download_written', 'publish_done', 'death_with_inflight_work', 'restart_clean',
                    'restart_kill', 'invalid_name_ignored', 'many_unrecorded_files', 'crash_then_second_restart',
-                   'non_file_entry_left', 'data_store_survived_clean_restart']
+                   'non_file_entry_left', 'unstatable_entry_left', 'data_store_survived_clean_restart']
 
 MIB = be.MIB
 
@@ -151,7 +151,7 @@ def gen(run_seed, tier):
     r5 = stream('C18.gen.nonfile', run_seed)
     for op in ops:
         if op['op'] == 'rm_file' and r5.random() < 0.3:
-            op['leave'] = r5.choice(['dangling_symlink', 'dangling_symlink', 'directory'])
+            op['leave'] = r5.choice(['dangling_symlink', 'dangling_symlink', 'directory', 'loop_symlink', 'notdir_symlink'])
     return {'family': 'faultfree' if faultfree else 'faults', 'sizes': sizes, 'ops': ops, 'shared_store': shared}
 
 
@@ -622,6 +622,22 @@ def execute(scenario, keep_trace=False):
                         os.mkdir(os.path.join(dirs.blobs, h))
                         run.faults['file_replaced_by_directory'] += 1
                         run.probes['non_file_entry_left'] += 1
+                    elif op.get('leave') == 'loop_symlink':
+                        # an entry whose stat() fails with something other than ENOENT: a symlink to itself (ELOOP)
+                        os.symlink(h, os.path.join(dirs.blobs, h))
+                        run.faults['file_replaced_by_unstatable_entry'] += 1
+                        run.probes['non_file_entry_left'] += 1
+                        run.probes['unstatable_entry_left'] += 1
+                    elif op.get('leave') == 'notdir_symlink':
+                        # ... or a symlink THROUGH a regular file (ENOTDIR)
+                        anchor = os.path.join(dirs.blobs, 'download.tmp')
+                        if not os.path.exists(anchor):
+                            with open(anchor, 'wb') as f:
+                                f.write(b'x')
+                        os.symlink(os.path.join('download.tmp', 'x'), os.path.join(dirs.blobs, h))
+                        run.faults['file_replaced_by_unstatable_entry'] += 1
+                        run.probes['non_file_entry_left'] += 1
+                        run.probes['unstatable_entry_left'] += 1
                     st['pending_fault'] = True
                     run.ev('rm_file', n, short(h))
                 elif kind == 'stray':
